@@ -156,6 +156,9 @@ def run(ctx, rep):
             for b in F.method(h, name, tr):
                 yield b["key"]
 
+    from . import c01 as _c01
+
+    _c01.rule_destroy(ctx, rep)  # whoever ends up the last owner - an unwrap that observed 1 from its own decrement included - destroys or moves out the value once and frees the block once (shapes S1-S3)
     from . import c05
 
     c05.rule_free_type(ctx, rep)  # "the allocation is released": the sole owner gives the block back as the type (and layout) it was handed out as
